@@ -346,6 +346,13 @@ pub fn gen(prop: &str, tier: &str, seed: u64, out: &mut Vec<String>) {
                                 for k in [0u64, 1, 63, 64, 65, 127, 128, 129, 1087, 1088, 1089] {
                                     out.push(format!("{} {b} {size} {bs} {ql} {src} 0:0:{k}", dec_op(&mut r)));
                                 }
+                                // the async decoder behind a tokio AsyncRead (iroh_io::TokioStreamReader: its fixed-size reads
+                                // use tokio's read_exact, whose end-of-stream error carries a payload)
+                                for _ in 0..if t { 6 } else { 3 } {
+                                    let k = if r.chance(1, 2) { r.below(200.min(len + 1)) } else { r.below(len + 1) };
+                                    let cs = *r.pick(&["c-", "e64", "e1000p", "e1"]);
+                                    out.push(format!("fragdec fsm {cs} {b} {size} {bs} {ql} {src} 0:0:{k}"));
+                                }
                                 // the same through the decode_ranges drivers (what they RETURN must be the typed error)
                                 for _ in 0..if t { 8 } else { 3 } {
                                     let fl = if r.chance(1, 2) { "sync" } else { "fsm" };
